@@ -29,6 +29,8 @@ def main():
     rng = random.Random(seed)
     sess = impl.Session()
     ctx = mod.Context(sess, rng) if hasattr(mod, "Context") else None
+    if ctx is not None:
+        ctx.seed = seed
 
     ops, outs, failures = [], [], []
     hist, errs = {}, {}
@@ -70,7 +72,7 @@ def main():
             line = next(gen)
             while True:
                 res = run_line(line)
-                if len(ops) >= n_ops * 3:
+                if len(ops) >= n_ops * 10:
                     break
                 line = gen.send(res)
         except StopIteration:
